@@ -528,6 +528,7 @@ func checkC16(c *Ctx, r *Report) {
 			"SecureChallenge is a slice of the line matched by the ;PQ prefix test", "the secure-login challenge is not taken from the ;PQ line")
 	}
 	c16Extra(c, r)
+	c16Extra4(c, r)
 	r.NotCov = append(r.NotCov, "the numeric value of the response for all challenge/password pairs (shift/or loop, sign, decimal formatting)")
 }
 
